@@ -233,9 +233,7 @@ func (s *Storage) periodicARPUpdate(ctx context.Context) {
 
 // ReloadARP reloads runtime clients from ARP, if configured.
 func (s *Storage) ReloadARP(ctx context.Context) {
-	if s.arpDB != nil {
-		s.addFromSystemARP(ctx)
-	}
+	s.addFromSystemARP(ctx)
 }
 
 // addFromSystemARP adds the IP-hostname pairings from the output of the arp -a
@@ -243,6 +241,11 @@ func (s *Storage) ReloadARP(ctx context.Context) {
 func (s *Storage) addFromSystemARP(ctx context.Context) {
 	s.mu.Lock()
 	defer s.mu.Unlock()
+
+	// s.arpDB is replaced below, so only check it under the lock.
+	if s.arpDB == nil {
+		return
+	}
 
 	if err := s.arpDB.Refresh(); err != nil {
 		s.arpDB = arpdb.Empty{}
